@@ -1,13 +1,22 @@
 """C17 — the intermediate parse tree honours its published contract."""
-import json, copy
+import json, copy, os
 from .. import core, real, gen, e2e
 from ..leandrv import Driver
 
 MODULE = 'Bluebell.Props.C17'
-THEOREMS = ['Bluebell.C17_text_and_marker_have_no_children', 'Bluebell.C17_to_dict_is_a_function', 'Bluebell.C17_two_entry_points_agree', 'Bluebell.C17_counterexample_undocumented_type']
+THEOREMS = ['Bluebell.C17_text_and_marker_have_no_children', 'Bluebell.C17_to_dict_is_a_function', 'Bluebell.C17_two_entry_points_agree', 'Bluebell.C17_types_and_keys_documented', 'Bluebell.C17_speech_type_documented']
 
-DOC_TYPES = {'element', 'hier', 'block', 'content', 'inline', 'text', 'marker'}
-DOC_KEYS = {'type', 'name', 'attribs', 'children', 'value', 'text', 'num', 'heading', 'subheading'}
+def _readme_contract():
+    """documented node types and keys, as the translator read them from the repository's README.md on this run"""
+    try:
+        st = json.load(open(os.path.join(core.LEAN_DIR, 'Bluebell', 'Gen', 'status.json')))
+        r = st['tables']['readme']
+        return set(r['types']), set(r['keys'])
+    except Exception:
+        return {'element', 'hier', 'block', 'content', 'inline', 'text', 'marker'}, {'type', 'name', 'attribs', 'children', 'value', 'text', 'num', 'heading', 'subheading'}
+
+
+DOC_TYPES, DOC_KEYS = _readme_contract()
 FRAGMENTS = ['hier_element', 'block_element', 'hier_block_element', 'table', 'block_list', 'bullet_list', 'p', 'line', 'attachments',
              'attachment', 'speech_container', 'footnote', 'block_quote', 'preface', 'judgmentBody', 'body', 'mainBody', 'crossheading', 'longtitle']
 
@@ -103,6 +112,9 @@ def case_violation(text, root):
 
 
 def run(ctx, info):
+    global DOC_TYPES, DOC_KEYS
+    DOC_TYPES, DOC_KEYS = _readme_contract()   # after this run's translation
+
     rng = ctx.rng
     failures = []
     drv = Driver() if info['driver'] else None
